@@ -55,6 +55,13 @@ CLAIMS = {
          "_SELECT KEY / UNIQUE directives naming unknown columns through sql.NewTable and sqlcrud.generateTable. Sweeps: typescript, dart (incl. Generate), SQL validators, gounions, randdata on every analysis.Type skeleton "
          "of depth<=1 (quick) / 2 (thorough) over the nine node kinds. NOT decided: the full statement over all well-typed packages (createType on arbitrary go/types graphs, unbounded recursion, packages.Load).",
          "DESIGN.md section 4 (C18)", ""),
+ "C16": ("Decides the rewriting clauses with a symbolic regular-expression matcher (a priority-ordered backtracker over the real regexp/syntax program of each pattern, byte-class tests decided by the solver). "
+         "TableNameReplacer.Replace against a loop-written tokenizer on symbolic text around/inside table names (prefix names included): whole words equal to a table name are replaced, nothing else; "
+         "ReplaceEnums: #[E.A] inside symbolic text becomes the SQL literal (digits as written, strings single-quoted) optionally followed by an SQL comment, surroundings untouched; sql.newCustomQuery: $name$ placeholders "
+         "numbered by first occurrence with equal names sharing a number, one typed input per distinct name; Table.processComments: select-key directives never reach CustomConstraints, UNIQUE/select-key column lists are "
+         "the trimmed names; generateCustomConstraint: REFERENCES <name> rewritten through the real ToSnakeCase, ADD attached to the own table, other content verbatim. "
+         "NOT decided: which struct a comment is attributed to (position arithmetic on a type-checked package), guard values beyond the enum placeholder.",
+         "DESIGN.md section 4 (C16)", ""),
  "C20": ("Decides the whole statement within the bounds: 2 (quick) / 3 (thorough) goroutines each issuing one FormatFile(format, file) on one shared zero Formatters, format ranging over NoFormat, the four formats and an "
          "out-of-range value, tool presence (4 booleans) and run failure (one per request) symbolic. The real SSA of hasGo/hasDart/hasTypescript/hasPsql/FormatFile runs on engine threads; sync.Mutex/WaitGroup and "
          "os/exec are environment models; every interleaving at the visible operations (Lock, Unlock, command execution, Wait, thread exit) is explored and happens-before is tracked with vector clocks, so that "
